@@ -831,6 +831,10 @@ func runChain(c *kernel.Choices, p kernel.Params) *kernel.Result {
 	w.r.Sample = sample
 	nt := w.r.Probes["tx_failed_in_msgs"] + w.r.Probes["tx_out_of_gas"] + w.r.Faults["restart"]
 	w.r.Nontrivial = len(w.digest) >= 3 && nt > 0
+	if p.Property == "C14" && w.r.Violation == nil {
+		// module-level bank workload (bankmod.go); draws only after the chain body, so no other draw moves
+		bankModulePhase(c, p, w.r)
+	}
 	return w.r
 }
 
